@@ -162,8 +162,7 @@ func (t *Tokenizer) Reset() {
 	// Don't reset keywords as they're constant
 	t.logger = nil
 
-	// Preserve Comments slice capacity but reset length
-	if cap(t.Comments) > 0 {
-		t.Comments = t.Comments[:0]
-	}
+	// Comments handed to a caller must stay valid after the tokenizer is reused,
+	// so the slice is dropped rather than truncated and overwritten.
+	t.Comments = nil
 }
